@@ -222,7 +222,7 @@ func c07Body(r *vlib.Run) int {
 	// lines just below MaxLineLength (1 MiB): together with their record label
 	// they are longer than any buffer sized after the line limit
 	if fl := fleets[1]; fl != nil {
-		for k := 0; k < r.N(1, 6); k++ {
+		for k := 0; k < r.N(2, 6); k++ {
 			c07NearMaxRun(r, k, fl, rand.New(rand.NewSource(seeds[k%len(seeds)]+int64(k))))
 		}
 	}
@@ -504,7 +504,9 @@ func c07TailRun(r *vlib.Run, i int, fl *fleet, rng *rand.Rand) {
 	p := pacing{Kind: "slow", Chunk: 2048, DelayMs: 2}
 	cmd := vlib.Cmd{Path: r.Bin("dtail"), Args: full, Env: fl.ClientEnv(), Dir: fl.Home, Watchdog: 120 * time.Second}
 	if interrupt {
-		p = pacing{Kind: "fast"}
+		// moderately slow: what the client holds back during its pause takes a
+		// while to print, the sources keep delivering meanwhile
+		p = pacing{Kind: "slow", Chunk: 4096, DelayMs: 1}
 	}
 	var pidMu sync.Mutex
 	childPid := 0
